@@ -7,7 +7,8 @@ import VerifModel.Model.Interval
 
   Hand-written mirror of what the code DOES.  SciPy/NumPy primitives enter with
   their documented definitions:
-    scipy.signal.convolve(a, ones(w), "valid")  = sums over w consecutive entries
+    scipy.signal.convolve(a, ones(w), "valid", method="direct")
+                                                = sums over w consecutive entries
     np.cumsum / np.nancumsum                    = running sums (NaN as 0 for nancumsum)
     np.sort                                     = ascending, NaN last
     np.nanmean / np.mean                        = IEEE means (0/0 = nan)
@@ -48,7 +49,7 @@ def cumsumFrom (acc : XR) : Vec → Vec
 /-- `np.cumsum` -/
 def cumsum (v : Vec) : Vec := cumsumFrom (.fin 0) v
 
-/-- `scipy.signal.convolve(v, ones(w), "valid")`: entry s is the sum of v[s .. s+w-1];
+/-- `scipy.signal.convolve(v, ones(w), "valid", method="direct")`: entry s is the sum of v[s .. s+w-1];
 `len(v) - w + 1` entries. -/
 def convValid (w : Nat) (v : Vec) : Vec :=
   (List.range (v.length + 1 - w)).map fun s => Vec.sum ((v.drop s).take w)
@@ -61,12 +62,12 @@ def convolve (w : Nat) (ignore : Bool) (v : Vec) : Option Vec :=
     let a := if ignore then zeroNan v else v
     some (List.replicate (w - 1) XR.nan ++ convValid w a)
 
-/-- accumulate.py on one series: `w = none` is "no -w" (cumulative), `-w 1` (and 0) leaves the
-series untouched (`elif args.w > 1`), `-i` = ignore missing. -/
+/-- accumulate.py on one series: `w = none` is "no -w" (cumulative); every `-w w` with w ≥ 1 goes
+through `convolve` (`elif args.w >= 1`; `-w 0` leaves the series untouched); `-i` = ignore missing. -/
 def accumulate (w : Option Nat) (ignore : Bool) (v : Vec) : Option Vec :=
   match w with
   | none => some (cumsum (if ignore then zeroNan v else v))   -- np.nancumsum / np.cumsum
-  | some w => if w > 1 then convolve w ignore v else some v
+  | some w => if w ≥ 1 then convolve w ignore v else some v
 
 /-- entry i of the accumulated series (NaN stands in where the script has exited) -/
 def accCell (w : Option Nat) (ignore : Bool) (series : Vec) (i : Nat) : XR :=
@@ -77,7 +78,7 @@ def accCell (w : Option Nat) (ignore : Bool) (series : Vec) (i : Nat) : XR :=
 /-- does the script stop with "Window is longer than dimension size"? -/
 def windowTooLong (w : Option Nat) (n : Nat) : Bool :=
   match w with
-  | some w => decide (w > 1) && decide (w > n)
+  | some w => decide (w ≥ 1) && decide (w > n)
   | none => false
 
 /-- accumulate.py on a whole field along `-x leadtime` (default) or `-x time` -/
@@ -126,9 +127,10 @@ def quantile (q : XR) (ens : Vec) : XR :=
     | .fin q => interpZero (linspace01 s.length) s q
     | _ => .nan
 
-/-- `pit = np.mean(ens < obs)` over the members -/
+/-- `pit = np.mean(ens < obs)` over the members; `pit[np.isnan(obs)] = np.nan` -/
 def pit (obs : XR) (ens : Vec) : XR :=
-  Vec.mean (List.map (fun e => boolToXR (XR.lt e obs)) ens)
+  if obs.isNan then .nan
+  else Vec.mean (List.map (fun e => boolToXR (XR.lt e obs)) ens)
 
 /-! ## expandverif.py -/
 
